@@ -73,6 +73,10 @@ def classify_query(ctx, sc, py):
     ctx.count("pathlen:%d" % min(len(sc["path"]), 6))
     for s in sc["path"]:
         ctx.count("step:" + s[0])
+    js = json.dumps(sc["path"])
+    for kind in ("below", "nb", "tab", "has", "not", "all", "any"):
+        if '["%s"' % kind in js:
+            ctx.count("pred:" + kind)
     if py != "nosrc":
         nres = sum(1 for s in py if s["s"][0] in ("R", "V"))
         ctx.count("results:" + ("0" if nres == 0 else "1" if nres == 1 else "2-5" if nres <= 5 else "6+"))
@@ -362,13 +366,15 @@ register("C02", streams=[Q("rec", apis=["find_matches"], src=False, maxlen=5)],
 register("C03", streams=[Q("filter", pred="custom", apis=["find_matches"], src=False, share=2), Q("filter", pred="mixed", apis=["find_matches"], src=False, share=1)],
          observables=["calls", "results_exc"],
          rule="paths with filters in any position (root, after wildcard/rec/slice, stacked, followed by steps); predicates are decision tables over the candidate returning arbitrary truthy/falsy objects or raising, neighbour lookups, and has-family predicates; compared: results, per-candidate call log (path, data_name, data, parent), exception cause chain")
-register("C04", streams=[Q("filter", pred="has", apis=["find_matches"], src=False)],
+register("C04", streams=[Q("filter", pred="has", apis=["find_matches"], src=False, share=5),
+                         Q("filter", pred="below", apis=["find_matches"], src=False, share=1)],
          observables=["fncalls", "results_exc"],
          rule="has/has_not/has_all/has_any trees (depth<=3) over relative paths incl. wildcards, recursion, parent steps, nested filters; six operators; constants of every JSON kind; conversion chains of length 0-3 that raise on part of the data; compared: results, conversion call order, exception chain")
 register("C05", streams=[Q("all", apis=ALL_APIS, src=None)],
          observables=["results_exc"],
          rule="all four read functions on the same (path, source) space, source = document or k-th match of another path; default in {none, constant incl. falsy and {}, callable}; must_match in {True, False}")
-register("C07", streams=[Q("all", apis=["find_matches", "find"], src=None, nexts="partial", untraced=0.5)],
+register("C07", streams=[Q("all", apis=["find_matches", "find"], src=None, nexts="partial", untraced=0.5, share=4),
+                         Q("filter", pred="below", apis=["find_matches", "find"], src=None, nexts="partial", untraced=0.5, share=1)],
          observables=["calls", "results_exc", "segments"], oracles=[oracles.interleave_oracle, oracles.thread_oracle],
          rule="iterators advanced k times (k below, at, beyond the number of results; extra next() calls after exhaustion); per-call segments of results and user-predicate calls compared with the machine model; interleavings of 2-5 iterators sharing path objects; real threads as support")
 register("C11", streams=[Q("nopar", apis=["find_matches"], src=None)],
@@ -385,7 +391,7 @@ register("C17", streams=[Q("all", apis=["find_matches", "find", "get_match"], sr
          rule="full trace event stream (last_match, vertex index, next_match, predicate_match) compared with the machine model; unstamped events compared with the specification stream; traced vs untraced runs compared on the python side")
 register("C20", generated=["Budget"], streams=[Q("all", apis=["find_matches"], src=None, nexts="drain")],
          observables=["attempts_bound", "results_exc", "tie:attempts"], oracles=[oracles.work_bound_oracle, oracles.cyclic_oracle],
-         extra=[families.GraphFamily("cyclic", 6, 150, "per-next() trace-event count and signal on self-referential structures under the real budget")],
+         extra=[families.GraphFamily("cyclic", 8, 150, "per-next() trace-event count and signal on self-referential structures under the real budget")],
          rule="number of trace events of a drained search compared with the specification's attempt count and with 2 x examinations; cyclic dict/list structures with the real budget as support")
 
 register("C08", extra=[families.MutateFamily("set", 1500, 60000, "outcome and whole object graph of set_ / set_match histories")],
